@@ -119,12 +119,12 @@ def _data_sha(tree):
     parts = []
     for n in tree.body:
         if isinstance(n, (ast.FunctionDef, ast.AsyncFunctionDef)):
-            parts.append('def ' + n.name + '(' + ast.dump(n.args) + ')' + ''.join(ast.dump(d) for d in n.decorator_list))
+            continue          # functions are tracked by their own AST hash when they are under contract; adding or editing another function is not a data change
         elif isinstance(n, ast.ClassDef):
             parts.append('class ' + n.name + ''.join(ast.dump(b) for b in n.bases) + ''.join(ast.dump(d) for d in n.decorator_list))
             for m in n.body:
                 if isinstance(m, (ast.FunctionDef, ast.AsyncFunctionDef)):
-                    parts.append('  def ' + m.name + '(' + ast.dump(m.args) + ')' + ''.join(ast.dump(d) for d in m.decorator_list))
+                    continue
                 else:
                     parts.append('  ' + ast.dump(m))
         else:
